@@ -254,7 +254,7 @@ package protocol
 //@     invariant s.nextRecv.v == old(s.nextRecv.v) && s.nextSend.v == old(s.nextSend.v)
 //@     invariant payload(seg.metadata, *dataAckStruct).windowSize == old(payload(seg.metadata, *dataAckStruct).windowSize)
 //@
-//@ struct writers Session.nextRecv = {moveRecvBufToRecvQueue}
+//@ struct writers Session.nextRecv = {Session.moveRecvBufToRecvQueue}
 //@   property C13 C02
 //@
 //@ // Fragmentation (C01/C13/C14) and the slot kept free for Close (C03): a chunk of at
